@@ -14,7 +14,10 @@ def payload(rng):
         return b'line one\nline two\n\x00\xff'
     if k < 0.8:
         return ('msg-%d written directly\n' % rng.randrange(1000)).encode()
-    return bytes(rng.randrange(256) for _ in range(rng.choice([100, 1000, 5000])))
+    if k < 0.93:
+        return bytes(rng.randrange(256) for _ in range(rng.choice([100, 1000, 5000])))
+    n = rng.choice([65535, 65536, 65537, 70000, 200000])      # large: beyond any plausible inline / pooled size class
+    return bytes([rng.randrange(256)]) * 7 + bytes(n - 7)
 
 
 def gen(run):
@@ -71,7 +74,7 @@ def check(run):
         return obs != 'err' and c.split()[0] == 'async' and ' g ' in c or len(c.split()[2].split(',')) > 1
     common.simple_family_check(run, 'c12', 'c12/recycled-buffer', cases, nontrivial,
         'sync/async Refresh-built loggers with 1-4 recording appenders (every reference level setting of C01, incl. ranges that exclude everything), a caller that recycles ONE buffer across writes '
-        '(empty, binary with NUL and invalid UTF-8, multi-line, up to 5 KB), the async worker parked while the buffer is overwritten; observable: returned lengths, handle identity, '
+        '(empty, binary with NUL and invalid UTF-8, multi-line, up to 5 KB, and large ones of 64 KiB +-1 .. 200 KB), the async worker parked while the buffer is overwritten; observable: returned lengths, handle identity, '
         'the byte strings every appender received, in order; non-trivial = several appenders, or an async logger with the worker parked', keep_empty=False)
     # concurrent writers
     tmp = common.scratch_dir('c12c')
